@@ -14,7 +14,7 @@ run_one() {
   echo "SEED $t: exit=$ex concrete=$conc nofailing=$nf notapply=$app"
 }
 export -f run_one
-ls seeded | grep -E "${TAGS:-^C[0-9][0-9][a-z]$}" | xargs -P 3 -I{} bash -c 'run_one {}'
+ls seeded | grep -E "${TAGS:-^C[0-9][0-9][a-z]$}" | xargs -P ${PAR:-3} -I{} bash -c 'run_one {}'
 python3 - <<'P'
 import json,glob,os,subprocess
 head=subprocess.run(["git","-C","/repo","rev-parse","--short","HEAD"],capture_output=True,text=True).stdout.strip()
